@@ -115,7 +115,7 @@ PROPS = {
     },
     "C12": {
         "required_theorems": ["c12_point_roundtrip", "c12_point_time_error", "c12_node_roundtrip", "c12_point_bytes_roundtrip",
-                              "c12_points_bytes_roundtrip", "c12_node_bytes_roundtrip", "c12_nodes_bytes_roundtrip", "c12_decoders_total",
+                              "c12_points_bytes_roundtrip", "c12_node_bytes_roundtrip", "c12_nodes_bytes_roundtrip", "c12_serial_bytes_roundtrip", "c12_decoders_total",
                               "c12_hr_in_bounds", "c12_subjects_total", "gen_pb_pinned"],
         "n": {"quick": 30000, "thorough": 300000},
         "thorough_seeds": 3,
@@ -127,8 +127,8 @@ PROPS = {
         "trusted": ["google.golang.org/protobuf v1.27.1 Unmarshal/Marshal (modelled at the byte level in Siot/Model/Proto3.lean; equality exercised on every case)",
                     "golang/protobuf ptypes.Timestamp validation (range constants transcribed)", "float32->float64 widening (IEEE, parameter `widen`)"],
         "modelled": ["data/point.go ToPb, PbToPoint, SerialToPoint, PbDecodePoints, PbDecodeSerialPoints, DecodeSerialHrPayload; data/node.go ToPbNode, PbToNode, PbDecode*; client/msg.go subject parsers",
-                     "the byte-level round trip is proved for a point, a Points message of any length, a Node with both point lists and a Nodes / NodesRequest list (Lemmas/Proto3.lean: parse (encFields fs) = some fs for every "
-                     "field list the encoder writes; Lemmas/PbBytes.lean: the message decoders on those field lists); for the serial point message it is checked on every generated case by the driver only"],
+                     "the byte-level round trip is proved for a point, a Points message of any length, a Node with both point lists, a Nodes / NodesRequest list and a SerialPoints list (Lemmas/Proto3.lean: parse (encFields fs) = some fs for every "
+                     "field list the encoder writes; Lemmas/PbBytes.lean: the message decoders on those field lists)"],
         "assumptions": ["times within the protobuf Timestamp range [0001-01-01, 10000-01-01)", "tombstone counts within int32", "strings valid UTF-8 (proto3 requirement)",
                         "strings and data of one point together below 2^63 bytes (protobuf-go refuses messages above 2 GiB)"],
     },
